@@ -161,11 +161,13 @@ class E3:
     def _start(self):
         self.p = subprocess.Popen([self.binary], stdin=subprocess.PIPE, stdout=subprocess.PIPE, stderr=subprocess.DEVNULL, text=True, bufsize=1)
 
-    def run(self, src, options=None, tsx=False, dump=True, twice=False, prelude=None):
+    def run(self, src, options=None, tsx=False, dump=True, twice=False, prelude=None, options_text=None):
         if self.p is None or self.p.poll() is not None:
             self._start()
         self.n += 1
         req = {'id': self.n, 'src': src, 'tsx': tsx, 'options': options or {}, 'dump': dump, 'twice': twice}
+        if options_text is not None:
+            req['options_text'] = options_text      # the configuration as JSON text (read with serde_json::from_str, as the plugin entry does)
         if prelude:
             req['prelude'] = [dict(p, id=0, dump=False) for p in prelude]
         try:
